@@ -72,6 +72,13 @@ def gen_cases(tier, seed):
                               ("initial_henry_slope", 5, [["absolute", "MPa"], ["mass", "mg"]]), ("initial_henry_slope", 5, [["absolute", "bar"], ["molar", "cm3(STP)"]]),
                               ("initial_henry_slope", 5, [["absolute", "Pa"], ["mass", "g"]])):
         yield {"kind": "twin", "entry": entry, "source": ["synthetic", src], "seed": r.randrange(1 << 30), "force": force}
+    # integer-typed recordings in the very units a method reads, against the same data in another representation
+    for entry in ("psd_meso:pygaps-DH", "psd_meso:BJH", "psd_meso:DH", "t_plot", "area_BET", "dr_plot"):
+        for src in (6, 7):
+            yield {"kind": "twin", "entry": entry, "source": ["synthetic", src], "seed": r.randrange(1 << 30), "force": [["relative", None], ["molar", "mmol"] if src == 6 else ["volume_liquid", "cm3"]]}
+    # samples a hundred / a thousand times less (more) porous
+    for k, entry in enumerate(("area_BET", "area_langmuir", "t_plot", "dr_plot", "psd_meso:BJH", "area_BET", "area_BET", "da_plot")):
+        yield {"kind": "twin", "entry": entry, "source": ["n77", N77[k % 5]], "seed": r.randrange(1 << 30), "scale": [1e-3, 1e-4, 1e-2, 1e3, 1e-3, 1e-2, 1e2, 1e-3][k]}
     if tier == "thorough":
         # every pressure representation x every non-fractional loading representation, for the cheap methods
         for entry in ("area_BET", "t_plot", "dr_plot"):
@@ -158,7 +165,8 @@ def _run_entry(entry, iso):
     if entry == "initial_henry_virial":
         return {"K": ch.initial_henry_virial(iso)}
     if entry.startswith("psd_meso:"):
-        return ch.psd_mesoporous(iso, psd_model=entry.split(":")[1], pore_geometry="cylinder")
+        # (the method's default is the desorption branch; the synthetic recordings have an adsorption branch only)
+        return ch.psd_mesoporous(iso, psd_model=entry.split(":")[1], pore_geometry="cylinder", branch="des" if iso.has_branch("des") else "ads")
     if entry.startswith("psd_micro:"):
         return ch.psd_microporous(iso, psd_model=entry.split(":")[1], pore_geometry="slit")
     if entry == "psd_dft":
@@ -265,7 +273,7 @@ def _run_twin(case, ctx):
         ctx.count("skipped", "%s refused on the source isotherm (%s)" % (entry, type(ra[1]).__name__))
         ctx.trivial += 1
         return
-    how = "convert" if case.get("force") else r.choice(["convert", "convert", "convert", "json", "scale"])
+    how = "convert" if case.get("force") else "scale" if case.get("scale") else r.choice(["convert", "convert", "convert", "json", "scale"])
     info = {"entry": entry, "source": case["source"]}
     scale = None
     if how == "convert":
@@ -285,7 +293,7 @@ def _run_twin(case, ctx):
         info["transformation"] = "json round trip"
     else:
         # (any positive factor: a sample a thousand times less / more porous is the same analysis)
-        scale = round(gen.log_uniform(r, 0.2, 5.0), 4) if r.random() < 0.5 else r.choice([1e-4, 1e-3, 1e-2, 1e2, 1e3])
+        scale = case.get("scale") or (round(gen.log_uniform(r, 0.2, 5.0), 4) if r.random() < 0.5 else r.choice([1e-4, 1e-3, 1e-2, 1e2, 1e3]))
         twin = gen.copy_point(base)
         twin.data_raw[twin.loading_key] = twin.data_raw[twin.loading_key] * scale
         info["transformation"] = "loading x %s" % scale
